@@ -141,6 +141,8 @@ class C15(Prop):
                     if oe != fe[:len(oe)] or orr != fr[:len(orr)]:
                         bad = "timeout at check %d: what was reported is not a prefix of the complete scan" % r["at"]
                     ctx.count("rich: timeout interrupted")
+                elif r["at"] <= (full.get("checks") or 0):
+                    bad = "timeout at check %d of %s did not interrupt the scan" % (r["at"], full.get("checks"))
                 elif o.get("error") or oe != fe or orr != fr:
                     bad = "timeout point beyond the last check changes the outcome"
             if bad:
@@ -148,7 +150,34 @@ class C15(Prop):
                 return (False, False, 0)
         return (True, True, 0)
 
+    def gen_shared_atom_limit(self, rng):
+        """Several rules declaring the same short string, more occurrences than string_max_nb_matches: the strings
+        reach the limit while the same Aho-Corasick hit is handled, so their match-limit events come back to back;
+        callback API with these events enabled, every abort point."""
+        name, pat = rng.choice([("d", b"a"), ("a", b"ab"), ("c", b"zz")])
+        nr = rng.range(2, 4)
+        rules = []
+        for i in range(nr):
+            strings = [["_%s0" % name, list(pat)]]
+            if rng.chance(1, 3):
+                strings.append(["_%s1" % name, list(pat)])
+            c = rng.choice([("var", 0), ("bin", "ge", ("count", 0), ("int", 1)), ("bool", True), ("of", "any", None, [0])])
+            rules.append({"ns": rng.below(2), "name": "r%d" % i, "global": False, "private": rng.chance(1, 5),
+                          "strings": strings, "cond": c, "id": i, "ord_index": i})
+        remap = {}
+        for r in rules:
+            if r["ns"] not in remap:
+                remap[r["ns"]] = len(remap)
+            r["ns"] = remap[r["ns"]]
+        rs = json.loads(json.dumps({"rules": rules, "nns": len(remap)}))
+        mem = rng.choice([b"aaaaaaaa", b"abababab ab", b"zzzzzz zz", b"ab a zz a ab zz a"])
+        return {"rs": rs, "mem": mem.hex(), "full": rng.chance(1, 2), "nm": rng.chance(1, 3), "cb": True,
+                "ev_nomatch": rng.chance(1, 2), "imports": [], "ev_import": False, "ev_limit": True,
+                "limit": rng.choice([1, 1, 2, 3]), "frag": None}
+
     def gen_case(self, rng):
+        if rng.chance(1, 8):
+            return self.gen_shared_atom_limit(rng)
         if rng.chance(1, 6):
             return self.gen_rich(rng)
         if rng.chance(1, 5):
